@@ -319,3 +319,55 @@ fn one(tok: &GTok, c: char) -> bool {
 pub fn has_glob_meta(p: &str) -> bool {
     p.contains(|c| matches!(c, '*' | '?' | '[' | ']'))
 }
+
+/// Names made from what stands *around* the brace groups of a pattern: the
+/// text before the first '{' joined to the text after the last '}', as it is
+/// and with the characters the two share at the joint counted once
+/// ("foo-" + "-1.0" -> "foo--1.0", "foo-1.0"), and the same around each single
+/// group.  Such a name begins and ends like every expansion yet is shorter
+/// than any of them.
+pub fn joint_names(p: &str) -> Vec<String> {
+    let mut out = vec![];
+    let join = |a: &str, b: &str, out: &mut Vec<String>| {
+        out.push(format!("{a}{b}"));
+        let ac: Vec<char> = a.chars().collect();
+        let bc: Vec<char> = b.chars().collect();
+        for k in 1..=ac.len().min(bc.len()).min(4) {
+            if ac[ac.len() - k..] == bc[..k] {
+                out.push(ac.iter().chain(bc[k..].iter()).collect());
+            }
+            // also without the k characters on either side of the joint
+            out.push(ac[..ac.len() - k].iter().chain(bc.iter()).collect());
+            out.push(ac.iter().chain(bc[k..].iter()).collect());
+        }
+    };
+    if let (Some(i), Some(j)) = (p.find('{'), p.rfind('}')) {
+        if i < j {
+            join(&p[..i], &p[j + 1..], &mut out);
+        }
+    }
+    // around each top-level group
+    let b = p.as_bytes();
+    let mut depth = 0i32;
+    let mut open = 0usize;
+    for (k, &c) in b.iter().enumerate() {
+        if c == b'{' {
+            if depth == 0 {
+                open = k;
+            }
+            depth += 1;
+        } else if c == b'}' {
+            depth -= 1;
+            if depth == 0 && out.len() < 64 {
+                let strip = |s: &str| -> String { s.chars().filter(|c| !matches!(c, '{' | '}' | ',')).collect() };
+                join(&strip(&p[..open]), &strip(&p[k + 1..]), &mut out);
+            }
+            if depth < 0 {
+                break;
+            }
+        }
+    }
+    out.sort();
+    out.dedup();
+    out
+}
